@@ -254,7 +254,10 @@ def translate(path: StrPath, workdir: StrPath = ".") -> Path:
     if not path.isabs():
         workdir = coerce_path(workdir).normpath()
         path = workdir / path
-        if not workdir.isabs():
+        if workdir.isabs():
+            # The join can reintroduce `..` components after both parts were normalized.
+            path = path.normpath()
+        else:
             root = get_stepup_root()
             here = Path(os.getenv("HERE", Path(".").relpath(root)))
             path = (root / here / path).normpath().relpath(root)
